@@ -22,6 +22,7 @@ struct Shim {
     set_wall: unsafe extern "C" fn(i64, i64),
     reads: unsafe extern "C" fn() -> u64,
     sleeps: unsafe extern "C" fn() -> u64,
+    now_mono: unsafe extern "C" fn() -> i64,
 }
 
 static SHIM: OnceLock<Option<Shim>> = OnceLock::new();
@@ -29,6 +30,10 @@ static SHIM: OnceLock<Option<Shim>> = OnceLock::new();
 fn shim() -> Option<&'static Shim> {
     SHIM.get_or_init(|| unsafe {
         let look = |name: &[u8]| dlsym(std::ptr::null_mut(), name.as_ptr() as *const c_char);
+        let g = look(b"simclock_now_mono\0");
+        if g.is_null() {
+            return None;
+        }
         let (a, b, c, d, e, f) = (
             look(b"simclock_ctl\0"),
             look(b"simclock_mode\0"),
@@ -47,6 +52,7 @@ fn shim() -> Option<&'static Shim> {
             set_wall: std::mem::transmute(d),
             reads: std::mem::transmute(e),
             sleeps: std::mem::transmute(f),
+            now_mono: std::mem::transmute(g),
         })
     })
     .as_ref()
@@ -114,4 +120,9 @@ pub fn reads() -> u64 {
 
 pub fn sleeps() -> u64 {
     shim().map(|s| unsafe { (s.sleeps)() }).unwrap_or(0)
+}
+
+/// simulated monotonic "now" in nanoseconds (0 without the shim)
+pub fn now_ns() -> i64 {
+    shim().map(|s| unsafe { (s.now_mono)() }).unwrap_or(0)
 }
